@@ -71,7 +71,9 @@ Definition prep (g : dval -> option dval) (fixed : N -> Z -> N) (prec : Z) (vals
   : option (list dval) :=
   opt_all (map (prep_val g fixed prec) vals).
 
-(* the coercion entry of the configuration for a column name *)
+(* the coercion function the configuration binds to a column name (None also for an entry WITHOUT function:
+   such an entry makes the read fail when its column is in the result set — coerce_nil_hit of Model/Sql.v,
+   demanded by spec_read_must_fail below) *)
 Definition co_of (conf : sql_config) (name : bytes) : option coerce_kind :=
   match q_coerce conf with Some m => coerce_lookup m name | None => None end.
 
@@ -112,6 +114,7 @@ Section Spec.
     if negb (forallb (fun r => Nat.eqb (length r) (length names)) rows) then None
     else if negb (nodupb names && forallb check_name names) then None
     else if Nat.eqb (length rows) 0 then None
+    else if coerce_nil_hit conf names then None        (* an entry without function: the read must fail *)
     else option_map (combine names)
            (opt_all (map (fun j =>
                             match prep (g_of conf (nth j names [])) fixed (q_precision conf) (column_vals rows j) with
@@ -127,9 +130,12 @@ Section Spec.
     | Some vals' => null_after_int_or_bool vals'
     end.
 
-  (* ReadSQL must report an error (and must not return a frame): a well-formed result set (every row has
-     one value per column) with a column that makes the read fail *)
+  (* ReadSQL must report an error (and must not return a frame, and must not panic): a result set with at
+     least one row one of whose columns is bound, in the coercion map, to an entry WITHOUT function (an
+     invalid argument: config/sql.Coerce with a CoercePair whose Type is none of the constants), or a
+     well-formed result set (every row has one value per column) with a column that makes the read fail *)
   Definition spec_read_must_fail (conf : sql_config) (names : list bytes) (rows : list (list dval)) : bool :=
-    forallb (fun r => Nat.eqb (length r) (length names)) rows
-    && existsb (fun j => col_must_fail conf (nth j names []) (column_vals rows j)) (seq 0 (length names)).
+    (negb (Nat.eqb (length rows) 0) && coerce_nil_hit conf names)
+    || (forallb (fun r => Nat.eqb (length r) (length names)) rows
+        && existsb (fun j => col_must_fail conf (nth j names []) (column_vals rows j)) (seq 0 (length names))).
 End Spec.
